@@ -32,6 +32,23 @@ pub(crate) fn ty(p: &mut Parser) {
     }
 }
 
+/// Entry point for [`Parser::parse_type`]: the whole input must be exactly one type.
+pub(crate) fn standalone_ty(p: &mut Parser) {
+    // Leading ignored tokens are attached inside of the root node.
+    p.skip_ignored();
+    match parse(p) {
+        Ok(_) => (),
+        Err(token) => {
+            // No type node was created: the tree still needs a root.
+            let _guard = p.start_node(SyntaxKind::NAMED_TYPE);
+            match token {
+                Some(token) => p.err_at_token(&token, "expected a type"),
+                None => p.err("expected a type"),
+            }
+        }
+    }
+}
+
 /// Returns the type on success, or the TokenKind that caused an error.
 ///
 /// When errors occur deeper inside nested types like lists, this function
